@@ -1652,7 +1652,7 @@ func chRandComp(rng *rand.Rand, depth int) *chComp {
 			c.Translate = ints([]byte("kr"))
 			c.With = []*chComp{kid(), kid()}
 		case k == 7:
-			c.Translate = ints([]byte("ke")) // in the table, translated to the empty string
+			c.Translate = ints([]byte([]string{"ke", "kp"}[rng.Intn(2)])) // in the table: the empty string / "50% off" (no slots)
 		case k == 8:
 			c.Translate = ints([]byte("k2"))
 			c.With = []*chComp{chTxt(fmt.Sprint(rng.Intn(300) - 150)), chTxt(fmt.Sprint(rng.Intn(100000) - 50000))}
